@@ -26,6 +26,17 @@ Theorem C07_mutex_no_stuck : forall st, mreachable st ->
 Proof. exact mutex_no_stuck. Qed.
 Print Assumptions C07_mutex_no_stuck.
 
+(* The lock must exist before the first run(): in the variant that creates it lazily by an unsynchronised check-then-act
+   (seeded mutation C07-m1; Batch/Mutex.v, zstep) two threads are inside the wrapped primitive at once, each under its own
+   lock.  For the real wrappers "the constructor creates the one lock" is checked by the harness on freshly constructed
+   wrappers on every run (the Mutex model above has the lock from the start). *)
+Theorem C07_lazy_lock_refuted :
+  exists st th0 th1, zrun (z_init 2) [0; 1; 0; 0; 0; 0; 1; 1; 1; 1] = Some st
+    /\ nth_error (z_ths st) 0 = Some th0 /\ nth_error (z_ths st) 1 = Some th1
+    /\ z_using th0 = true /\ z_using th1 = true /\ z_lock th0 <> z_lock th1.
+Proof. exact lazy_lock_refuted. Qed.
+Print Assumptions C07_lazy_lock_refuted.
+
 (* What the solver's constructor puts in front of the raw primitive (the constructor itself is compared with `install`
    by the harness): with mutual exclusion requested the evaluators never see an unguarded primitive. *)
 Theorem C07_installed :
